@@ -80,6 +80,8 @@ class Explorer:
         # so 2^d workers partition one decision tree between them
         self.shard = list(shard or [])
         self.free_seen = 0
+        self.ld_count = 0
+        self.ld_terms = []  # (exact term, rounded variable) for limit_denominator applied to derived values
         self.retry_timeout_ms = 60000
         self._last_model_solver = None
 
@@ -503,8 +505,21 @@ class SF(RealFraction):
         return repr(s)
 
     def limit_denominator(s, max_denominator=10**6):
-        # assumption A-LD: symbolic rationals have denominators <= 10^6 (fixed points)
-        return s
+        """A-LD: *input-level* rationals (variables, numerals, values that already went through
+        limit_denominator) have denominators <= 10^6 and are fixed points.  A *derived* value (a quotient
+        of tallies, a product of weights) can have any denominator, so rounding it is modelled as a fresh
+        value within 10^-6 of the exact one: assertions that need the exact value then fail, and the
+        counterexample search looks for inputs on which the real rounding bites (Ctx._ld_witness)."""
+        e = s.e
+        if _ld_fixed_point(e):
+            return s
+        ex = cur()
+        ex.ld_count += 1
+        y = z3.Real(f"_ld{ex.ld_count}_{len(ex.log)}")
+        eps = z3.Q(1, max_denominator)
+        ex.assume(z3.And(y - e <= eps, e - y <= eps))
+        ex.ld_terms.append((e, y))
+        return SF(y)
 
     def __int__(s):
         """truncation toward zero, decided by forking on the integer part (needs a bounded value)."""
@@ -566,6 +581,15 @@ class SF(RealFraction):
     @property
     def denominator(s):
         raise HarnessError("denominator of a symbolic rational read")
+
+
+def _ld_fixed_point(e):
+    """numerals, input variables (possibly Int-backed) and earlier limit_denominator results"""
+    if z3.is_rational_value(e) or z3.is_int_value(e):
+        return True
+    if e.decl().kind() == z3.Z3_OP_TO_REAL:
+        e = e.arg(0)
+    return e.decl().kind() == z3.Z3_OP_UNINTERPRETED and e.num_args() == 0
 
 
 TAINT = {"float": 0}
@@ -892,6 +916,11 @@ class Ctx:
             if m is not None and self.snap:
                 m2 = self.ex.nice_model(self.snap, [] if isinstance(cond, bool) else [z3.Not(cond)])
                 m = m2 if m2 is not None else m
+            if m is not None and self.ex.ld_terms:
+                m3 = self._ld_witness(cond)
+                if m3 is not None:
+                    m = m3
+                    detail = (detail + " [limit_denominator() is applied to a derived value]").strip()
             if m is not None:
                 self.violations.append(
                     Violation(label, detail, model_to_dict(m, self.vars), list(self.ex.script), self.path_index))
@@ -902,6 +931,41 @@ class Ctx:
         if not cond:
             raise ConcViolation(label, detail)
         return True
+
+    LD_CANDIDATES = [RealFraction(1000003), RealFraction(1000003, 1000000), RealFraction(999983, 500000),
+                     RealFraction(1000003, 3), RealFraction(2000003, 1000000), RealFraction(1000033, 999999)]
+
+    def _ld_witness(self, cond):
+        """The path rounds a derived value.  Look for inputs on which the real limit_denominator changes the
+        value: pin one input variable to an awkward rational (denominator <= 10^6, so a legal input) and keep
+        the first model that the unpatched code, run concretely, also fails on."""
+        from . import engine
+        hname = getattr(self, "hname", None)
+        if hname is None:
+            return None
+        extra = [] if isinstance(cond, bool) else [z3.Not(cond)]
+        tried = 0
+        for name, v in list(self.vars.items()):
+            if v.is_int():
+                continue
+            for c in self.LD_CANDIDATES:
+                if tried >= 24:
+                    return None
+                r = self.ex.check(*(extra + [v == z3.Q(c.numerator, c.denominator)]))
+                if r != z3.sat:
+                    continue
+                tried += 1
+                m = self.ex.get_model()
+                md = model_to_dict(m, self.vars)
+                if any(str(x).startswith(("alg:", "?")) for x in md.values()):
+                    continue
+                try:
+                    res = engine.run_conc(hname, self.params, md, list(self.ex.script), alarm=20.0)
+                except BaseException:
+                    continue
+                if res.get("status") == "violation":
+                    return m
+        return None
 
     def path_model(self):
         """model of the path condition (small denominators for snap vars), as dict, or None"""
